@@ -16,6 +16,14 @@ CLAIMED = {
             "(60-200 calls, 6-8 keys) are validated step by step by Trace_BiMap.",
             "Keys are used only via ==/hash so tokens generalise; trusts TLC, the ~100-line adapter in harness/props/c18.py.",
             "DESIGN.md §5 C18"),
+    "C19": ("TLA+ spec Shots.tla: TLC enumeration of all entry sequences / shot lists + replay into QsysShot/QsysResult (S->C) + "
+            "TLC trace validation of random entry streams (C->S)",
+            "TLC enumerates every entry sequence (no state collapsing) up to length 2-5 over pools of whole/indexed tags and "
+            "bit / non-bit / list / nested values, and every list of <=3-4 shots x strict flags, checking the write laws "
+            "(FoldAgrees, OnlyBits, StepLaw); each case is executed on the real classes and to_register_bits, "
+            "register_bitstrings/counts and collated_counts compared; random streams of 10-80 entries are validated by Trace_Shots.",
+            "Tag tokens are bound to strings in harness/props/c19.py; floats equal to 0/1 and tags with trailing newline are outside the domain.",
+            "DESIGN.md §5 C19"),
 }
 
 NOT_YET = "check not built yet in this round (planned: see DESIGN.md §5); nothing is claimed for it until its TLA+ spec and conformance legs exist"
